@@ -295,6 +295,56 @@ impl G1 {
     }
 }
 
+impl G1 {
+    /// programs whose interest is the table of global names: variables declared again under the same name, words
+    /// compiled against the earlier declaration and run after the later one, stores through either
+    fn global_stress(&mut self) {
+        let names = ["u", "v"];
+        let mut declared: Vec<String> = vec![];
+        let mut words: Vec<String> = vec![];
+        let n = 4 + self.rng.below(6);
+        for k in 0..n {
+            match if declared.is_empty() { 0 } else { self.rng.below(7) } {
+                0 | 1 => {
+                    let nm = names[self.rng.below(2)].to_string();
+                    self.out.push((1 + self.rng.below(9)).to_string()); self.out.push("var".into()); self.out.push(nm.clone());
+                    if !self.vars.contains(&nm) { self.vars.push(nm.clone()); }
+                    declared.push(nm);
+                }
+                2 => {
+                    let nm = declared[self.rng.below(declared.len())].clone();
+                    let w = format!("g{}", k);
+                    self.out.push(":".into()); self.out.push(w.clone());
+                    if self.rng.chance(1, 3) { self.out.push((20 + self.rng.below(9)).to_string()); self.out.push("!".into()); self.out.push(nm.clone()); }
+                    self.out.push(nm); self.out.push(";".into());
+                    words.push(w);
+                }
+                3 if !words.is_empty() => { let w = words[self.rng.below(words.len())].clone(); self.out.push(w); }
+                4 => { let nm = declared[self.rng.below(declared.len())].clone(); self.out.push((30 + self.rng.below(9)).to_string()); self.out.push("!".into()); self.out.push(nm); }
+                _ => { let nm = declared[self.rng.below(declared.len())].clone(); self.out.push(nm); }
+            }
+        }
+    }
+
+    /// a local (re)initialised on every trip of a loop inside a called definition, read inside and after the loop,
+    /// with further locals declared after the loop
+    fn loop_local_stress(&mut self) {
+        self.out.push(":".into()); self.out.push("f".into());
+        if self.rng.chance(1, 2) { self.out.push("7".into()); self.out.push("local".into()); self.out.push("y".into()); }
+        let trips = 1 + self.rng.below(3);
+        self.out.push(trips.to_string()); self.out.push("0".into()); self.out.push("do".into());
+        self.out.push("I".into()); if self.rng.chance(1, 2) { self.out.push("10".into()); self.out.push("+".into()); }
+        self.out.push("local".into()); self.out.push("x".into());
+        if self.rng.chance(1, 2) { self.out.push("x".into()); }
+        self.out.push("loop".into());
+        if self.rng.chance(1, 2) { self.out.push("9".into()); self.out.push("local".into()); self.out.push("z".into()); self.out.push("z".into()); }
+        self.out.push("x".into());
+        self.out.push(";".into());
+        self.out.push("f".into());
+        if self.rng.chance(1, 3) { self.out.push("f".into()); }
+    }
+}
+
 fn tok_json(t: &str) -> Value {
     let lit = |c: Value| json!({"t": "lit", "v": c, "s": "", "id": 0});
     if let Ok(i) = t.parse::<i64>() { return lit(json!({"ty": "int", "i": i})); }
@@ -313,7 +363,7 @@ pub fn cmd_record(args: &[String]) -> i32 {
         g.out.clear(); g.defs.clear(); g.vars.clear(); g.d = 0;
         let b = 6 + g.rng.below(budget);
         let mut locals = vec![];
-        if i % 4 == 3 { g.local_stress(); } else { g.seq(b, 0, false, &mut locals, 0); }
+        if i % 4 == 3 { g.local_stress(); } else if i % 8 == 2 { g.global_stress(); } else if i % 8 == 6 { g.loop_local_stress(); } else { g.seq(b, 0, false, &mut locals, 0); }
         let toks = g.out.clone();
         let src = toks.join(" ");
         let r = run_source(&src, Drive::Eval, false, 100_000);
